@@ -31,7 +31,7 @@ mon = SerialMonitor(9600)
 
 FREQS = [-100, 0, 0.4, 31, 440, 4000.5, 262, 1000]
 DURS = [-5, 0, 1, 50, 20, 7.5]
-COUNTS = [-1, 0, 1, 2, 7, 3]
+COUNTS = [-1, 0, 1, 2, 7, 3, 42, 48, 56, 83, 98]   # (larger counts: i/(steps-1) must reach exactly 1 at the last step)
 TEMPOS = [-60, 0, 30, 240, 120, 500, 97.5, 62.5, 0.75, 1.5]
 
 
@@ -64,8 +64,10 @@ def gen(rng, positive_only):
     def arg(v):
         if rng.random() < 0.45:
             nvar[0] += 1
-            body.append(f"q{nvar[0]} = {lit(v)}")
-            return f"q{nvar[0]}", True
+            # (short letter+digit names - f1, a4, b2 ... - are ordinary variables)
+            nm = f"{rng.choice('qfabdceg')}{nvar[0]}"
+            body.append(f"{nm} = {lit(v)}")
+            return nm, True
         return lit(v), False
 
     def pick(pool, pos_pool=None):
